@@ -253,17 +253,13 @@ def proof_step(prop, tier):
     rc, out = _run(["timeout", "900", "coqc", "-Q", COQ, "DSW", pf], 1000, COQ)
     info["coqc_rc"] = rc
     closed = out.count("Closed under the global context")
-    axioms = []
-    for block in re.findall(r"Axioms:\n((?:.+\n?)+?)(?:\n|\Z)", out):
-        for line in block.split("\n"):
-            m = re.match(r"^([A-Za-z_][A-Za-z0-9_.']*)\s*:", line)
-            if m and m.group(1) != "Axioms":
-                axioms.append(m.group(1))
+    import axioms as ax_mod
+    axioms = ax_mod.parse_print_assumptions(out)
     text = strip_comments(open(pf).read())
     n_print = len(re.findall(r"Print Assumptions", text))
     allowed = set(getattr(prop, "ALLOWED_AXIOMS", []))
     patterns = [re.compile(x) for x in getattr(prop, "ALLOWED_AXIOM_PATTERNS", [])]
-    unexpected = sorted(set(a for a in axioms if a not in allowed and not any(x.fullmatch(a) for x in patterns)))
+    unexpected = ax_mod.unexpected(axioms, allowed, [x.pattern for x in patterns])
     info["print_assumptions"] = {"commands": n_print, "closed": closed, "axioms": sorted(set(axioms))}
     if rc != 0:
         info["messages"].append("coqc failed on %s: %s" % (prop.PROOF_FILE, out[-1500:]))
@@ -392,9 +388,23 @@ def run_property(prop, tier, seed, replay=None):
             msg = c.oracle(a, r)
             if msg:
                 failures.append({"stream": c.stream, "payload": c.payload, "impl": a, "why": msg})
-    # ---- violation search when the proof or the correspondence broke and no failing input is at hand
+    # ---- known findings: a recorded finding is a statement about the algorithm the model describes, so an oracle failure counts as
+    # that finding only when the matcher recognises it AND the implementation agrees with the model on this very case
+    known = [f for f in load_known() if f.get("property") == prop.ID and f.get("status", "open") == "open"]
+    disagree_keys = {json.dumps([d["stream"], d["payload"]], sort_keys=True) for d in disagreements}
+
+    def known_for(f, agrees=None):
+        if agrees is None:
+            agrees = json.dumps([f["stream"], f["payload"]], sort_keys=True) not in disagree_keys
+        if not agrees:
+            return None
+        for kf in known:
+            if hasattr(prop, "known_match") and prop.known_match(kf, f["stream"], f["payload"], f["why"]):
+                return kf
+        return None
+    # ---- violation search when the proof or the correspondence broke and no NEW failing input is at hand
     searched = 0
-    if (disagreements or not proof["ok"] or model_error or tie) and not failures and replay is None:
+    if (disagreements or not proof["ok"] or model_error or tie) and not [f for f in failures if known_for(f) is None] and replay is None:
         srng = random.Random(seed + 7919)
         extra = []
         if hasattr(prop, "neighbours"):
@@ -415,19 +425,24 @@ def run_property(prop, tier, seed, replay=None):
             searched += 1
             msg = c.oracle(a, r)
             if msg:
-                failures.append({"stream": c.stream, "payload": c.payload, "impl": a, "why": msg})
+                f = {"stream": c.stream, "payload": c.payload, "impl": a, "why": msg}
+                agrees = False
+                if c.call is not None and known_for(f, agrees=True) is not None:
+                    try:
+                        ma = getattr(prop, "MODEL_RUNNER", run_model)([c.call])[0]
+                        agrees = (c.canon(ma) if (c.canon and ma is not None) else ma) == (c.canon(a) if c.canon else a)
+                    except Exception:  # noqa
+                        agrees = False
+                if known_for(f, agrees=agrees) is not None:
+                    continue                       # the recorded finding again (model and implementation agree): keep searching
+                disagree_keys.add(json.dumps([f["stream"], f["payload"]], sort_keys=True))
+                failures.append(f)
                 break
             if time.time() - t_search > budget:
                 break
-    # ---- known findings
-    known = [f for f in load_known() if f.get("property") == prop.ID and f.get("status", "open") == "open"]
     known_hit, new_failures = {}, []
     for f in failures:
-        hit = None
-        for k in known:
-            if hasattr(prop, "known_match") and prop.known_match(k, f["stream"], f["payload"], f["why"]):
-                hit = k
-                break
+        hit = known_for(f)
         if hit is not None:
             known_hit.setdefault(hit["id"], {"finding": hit, "count": 0, "example": f})["count"] += 1
         else:
